@@ -78,6 +78,18 @@ func HandleInvite(ctx context.Context, input HandleInviteInput) (PDU, error) {
 		return nil, spec.BadJSON("The room ID in the request path must match the room ID in the invite event JSON")
 	}
 
+	// Check that the event is in fact an invite of the invited user: the event
+	// is countersigned below, and nothing but an invite must come back signed.
+	if input.InviteEvent.Type() != spec.MRoomMember {
+		return nil, spec.BadJSON("The event must be an m.room.member event")
+	}
+	if membership, merr := input.InviteEvent.Membership(); merr != nil || membership != spec.Invite {
+		return nil, spec.BadJSON("The event membership must be 'invite'")
+	}
+	if !input.InviteEvent.StateKeyEquals(string(input.InvitedSenderID)) && !input.InviteEvent.StateKeyEquals(input.InvitedUser.String()) {
+		return nil, spec.BadJSON("The event state key must be the invited user")
+	}
+
 	// Check that the event is signed by the server sending the request.
 	redacted, err := verImpl.RedactEventJSON(input.InviteEvent.JSON())
 	if err != nil {
@@ -133,6 +145,17 @@ func HandleInviteV3(ctx context.Context, input HandleInviteV3Input) (PDU, error)
 	// Check that the room ID is correct.
 	if input.InviteProtoEvent.RoomID != input.RoomID.String() {
 		return nil, spec.BadJSON("The room ID in the request path must match the room ID in the invite event JSON")
+	}
+
+	// Only an invite is completed and signed with the user's room key.
+	if input.InviteProtoEvent.Type != spec.MRoomMember {
+		return nil, spec.BadJSON("The event must be an m.room.member event")
+	}
+	var protoContent struct {
+		Membership string `json:"membership"`
+	}
+	if err = unmarshalExact(input.InviteProtoEvent.Content, &protoContent); err != nil || protoContent.Membership != spec.Invite {
+		return nil, spec.BadJSON("The event membership must be 'invite'")
 	}
 
 	// NOTE: If we already have a senderID for this user in this room,
